@@ -5,6 +5,11 @@
 tier=$1; par=$2; shift 2
 cd /verif
 dirs=${@:-$(ls -d seeded/C*-[mnpqr]*)}
+# the checks run from a snapshot of /verif's HEAD, so that editing /verif meanwhile does not disturb the evaluation
+snap=/tmp/evalsnap-$$
+git -C /verif worktree add -q --detach $snap HEAD || exit 2
+trap 'git -C /verif worktree remove --force $snap' EXIT
+export snap
 one() {
   d=$1; tier=$2; id=$(basename $d)
   scratch=/tmp/evalseed-$id
@@ -14,7 +19,7 @@ one() {
   git -C $scratch/repo apply /verif/$d/patch.diff || { echo -e "$id\tPATCH_DOES_NOT_APPLY"; git -C /repo worktree remove --force $scratch/repo; rm -rf $scratch; return; }
   line="$id"
   for c in C01 C02 C03 C04 C05 C06 C07 C08 C09 C10 C11 C12 C13 C14 C15 C16 C17 C18 C19 C20; do
-    out=$(O2O_REPO=$scratch/repo VERIF_WORK=$scratch/work VERIF_OUT=$scratch/out ./run $c --tier $tier 2>&1); rc=$?
+    out=$(cd $snap && O2O_REPO=$scratch/repo VERIF_WORK=$scratch/work VERIF_OUT=$scratch/out ./run $c --tier $tier 2>&1); rc=$?
     sigs=$(echo "$out" | grep "signature:" | head -2 | sed 's/.*signature: //' | tr '\n' ';')
     if [ $rc -eq 1 ]; then line="$line\t$c:VIOLATION[$sigs]"; elif [ $rc -eq 2 ]; then line="$line\t$c:INCONCLUSIVE"; fi
   done
